@@ -61,6 +61,15 @@ type Attempt struct {
 	// until the Impl is closed or its context cancelled).
 	End      string `json:"end"`
 	EndDelay int    `json:"end_delay,omitempty"`
+	// ConnErr / SubErr / EndErr / CloseErr choose the KIND of error value the
+	// failing step returns (see errKinds in errkind.go): the constructor
+	// (Conn "err" or "park"), Impl.Subscribe (Sub "err"), Recv (End "err") and
+	// Impl.Close (any non-empty kind makes Close fail). Empty = the plain
+	// errors.New value (Close: nil).
+	ConnErr  string `json:"conn_err,omitempty"`
+	SubErr   string `json:"sub_err,omitempty"`
+	EndErr   string `json:"end_err,omitempty"`
+	CloseErr string `json:"close_err,omitempty"`
 }
 
 // Scenario is one case of half A.
@@ -72,6 +81,14 @@ type Scenario struct {
 	BaseDelay    int    `json:"base_delay"`              // client.RetryBaseDelay in units
 	MaxDelay     int    `json:"max_delay"`               // client.RetryMaxDelay in units
 	Timeout      int    `json:"timeout,omitempty"`       // Query.Timeout in units, 0 = unset (default 1 minute)
+	// Decoy, if not empty, makes every Subscribe call name TWO client types,
+	// which the client tries in parallel: the scripted transport and a decoy
+	// type whose constructor fails at once with an error value of this kind
+	// ("plain" for the errors.New value). DecoyFirst lists the decoy first.
+	// The decoy never yields an Impl, so the script alone decides the outcome
+	// of every attempt.
+	Decoy      string `json:"decoy,omitempty"`
+	DecoyFirst bool   `json:"decoy_first,omitempty"`
 	// Attempts scripts the first len(Attempts) attempts; every later attempt
 	// connects at once, delivers nothing and blocks.
 	Attempts []Attempt `json:"attempts"`
@@ -114,6 +131,17 @@ func (a Attempt) deafLife() time.Duration {
 
 var defaultAttempt = Attempt{Conn: "ok", Sub: "ok", End: "block"}
 
+// clientTypes is the clientType argument of every Subscribe call of the case.
+func (sc *Scenario) clientTypes() []string {
+	switch {
+	case sc.Decoy == "":
+		return []string{implType}
+	case sc.DecoyFirst:
+		return []string{decoyType, implType}
+	}
+	return []string{implType, decoyType}
+}
+
 func (sc *Scenario) attempt(i int) Attempt {
 	if i >= 0 && i < len(sc.Attempts) {
 		return sc.Attempts[i]
@@ -134,6 +162,9 @@ func (sc *Scenario) validate() error {
 	}
 	if sc.SubAt < 0 || sc.StopAt < 0 || sc.Timeout < 0 || sc.Pending < 0 {
 		return fmt.Errorf("negative instant")
+	}
+	if sc.Decoy != "" && !knownErrKind(sc.Decoy) {
+		return fmt.Errorf("decoy error kind %q", sc.Decoy)
 	}
 	if len(sc.Attempts) > 64 {
 		return fmt.Errorf("too many attempts")
@@ -156,6 +187,14 @@ func (sc *Scenario) validate() error {
 		}
 		if a.ConnDelay < 0 || a.EndDelay < 0 {
 			return fmt.Errorf("attempt %d negative delay", i)
+		}
+		for _, k := range []string{a.ConnErr, a.SubErr, a.EndErr, a.CloseErr} {
+			if k != "" && !knownErrKind(k) {
+				return fmt.Errorf("attempt %d error kind %q", i, k)
+			}
+		}
+		if a.EndErr == "eof" || a.EndErr == "stop" {
+			return fmt.Errorf("attempt %d: Recv returning the raw %s value is End %q, not an error kind", i, a.EndErr, a.EndErr)
 		}
 		for _, m := range a.Msgs {
 			if m.Delay < 0 || m.N < 1 || m.N > 16 {
